@@ -145,6 +145,21 @@ Section ConfigSpec.
   Definition label_keys (ic : image_config) (cfg : oci_config) : list string :=
     [created_key; revision_key; source_key] ++ akeys (ic_annotations ic) ++ akeys (oc_labels cfg).
 
+  Definition labels_ok_b (ic : image_config) (created : Z) (cfg : oci_config) : bool :=
+    forallb (fun k => option_eqb String.eqb (alookup k (oc_labels cfg)) (expected_label ic created k))
+            (label_keys ic cfg).
+  (* WHY the labels are wrong: exactly the labels of the same configuration
+     without its VCS URL = the source/revision pair was not recorded *)
+  Definition without_vcs (ic : image_config) : image_config :=
+    {| ic_shell_fragment := ic_shell_fragment ic; ic_command := ic_command ic; ic_cmd := ic_cmd ic;
+       ic_workdir := ic_workdir ic; ic_run_as := ic_run_as ic; ic_stop_signal := ic_stop_signal ic;
+       ic_volumes := ic_volumes ic; ic_env := ic_env ic; ic_annotations := ic_annotations ic;
+       ic_vcs_url := "" |}.
+  Definition labels_tags (ic : image_config) (created : Z) (cfg : oci_config) : list string :=
+    if labels_ok_b ic created cfg then []
+    else if labels_ok_b (without_vcs ic) created cfg then ["viol:config-vcs-source-revision-labels-missing"]
+    else ["viol:config-labels"].
+
   Definition config_tags (plat : string * string) (base : oci_config) (ic : image_config) (created : Z)
       (cfg : oci_config) : list string :=
     tag_if (negb (if nonempty (ic_shell_fragment ic)
@@ -158,8 +173,7 @@ Section ConfigSpec.
     tag_if (negb (let want := match ic_volumes ic with [] => oc_volumes base | vs => vs end in
                   incl_b (oc_volumes cfg) want && incl_b want (oc_volumes cfg))) "viol:config-volumes" ++
     env_tags Generated.C12Oci.default_env (ic_env ic) (oc_env cfg) ++
-    tag_if (negb (forallb (fun k => option_eqb String.eqb (alookup k (oc_labels cfg)) (expected_label ic created k))
-                          (label_keys ic cfg))) "viol:config-labels" ++
+    labels_tags ic created cfg ++
     tag_if (negb (Z.eqb (oc_created cfg) created)) "viol:config-created" ++
     tag_if (negb (String.eqb (oc_architecture cfg) (fst plat) && String.eqb (oc_variant cfg) (snd plat))) "viol:config-platform" ++
     tag_if (negb (String.eqb (oc_os cfg) expected_os)) "viol:config-os".
